@@ -58,6 +58,12 @@ def set_valid(case, value, key="jaxtyping_disable"):
     except ValueError as e:
         jaxtyping.config.update("jaxtyping_disable", False)
         raise Violation("valid-rejected", case, f"config.update('jaxtyping_disable', {value!r}) raised ValueError: {str(e)[:80]}")
+    except Exception as e:  # noqa: BLE001  (a documented spelling of the switch is accepted under every warnings / logging configuration)
+        try:
+            jaxtyping.config.update("jaxtyping_disable", False)
+        except Exception:  # noqa: BLE001
+            pass
+        raise Violation("valid-rejected", case, f"config.update({key!r}, {value!r}) raised {type(e).__name__}: {str(e)[:120]}")
 
 
 def check_case(ctx, case):
@@ -493,7 +499,78 @@ def run_subprocesses(ctx):
         shutil.rmtree(d, ignore_errors=True)
 
 
+def check_dataclass_and_unprintable(ctx):
+    """While checking is off a jaxtyped dataclass constructs exactly like the plain one (its __init__ receives a `self` that has no fields
+    yet), and a decorated function can be handed values whose repr() raises -- ill-typed values included; switching back on restores checking."""
+    import dataclasses
+
+    import numpy as np
+
+    from jaxtyping import Shaped
+    from vf.gen import arrays as ga
+
+    for ck in ("typeguard", "beartype"):
+        for how in ("config", "no_type_check"):
+            obs_reset()
+
+            @dataclasses.dataclass
+            class Plain:
+                x: int
+                y: Shaped[np.ndarray, "n"]
+
+            with warnings.catch_warnings():
+                warnings.simplefilter("ignore")
+                Checked = jaxtyped(typechecker=gc.checker(ck))(dataclasses.dataclass(type("Checked", (), {"__annotations__": {"x": int, "y": Shaped[np.ndarray, "n"]}, "__module__": __name__})))
+                def takes_array(x):
+                    return x
+
+                takes_array.__annotations__ = {"x": Shaped[np.ndarray, "n"], "return": Shaped[np.ndarray, "n"]}  # (evaluated annotation objects)
+                fn = jaxtyped(typechecker=gc.checker(ck))(takes_array)
+            if how == "no_type_check":
+                Checked.__init__ = typing.no_type_check(Checked.__init__)
+                fn = typing.no_type_check(fn)
+            else:
+                jaxtyping.config.update("jaxtyping_disable", True)
+            case = {"dataclass_disabled": [ck, how]}
+            try:
+                bad = np.zeros((2, 2)).view(ga.UnprintableArray)
+                for args in (("not-an-int", bad), (3, np.zeros((4,)).view(ga.UnprintableArray))):
+                    try:
+                        obj = Checked(*args)
+                    except BaseException as e:  # noqa: BLE001
+                        raise Violation("differs-from-plain", case, f"[{ck}, switched off by {how}] constructing the jaxtyped dataclass raised {type(e).__name__}: {e}; the plain dataclass constructs")
+                    if not (obj.x is args[0] and obj.y is args[1]):
+                        raise Violation("argument-identity", case, f"[{ck}, {how}] dataclass fields are not the passed objects")
+                    try:
+                        r = fn(args[1])
+                    except BaseException as e:  # noqa: BLE001
+                        raise Violation("differs-from-plain", case, f"[{ck}, switched off by {how}] calling the decorated function with an unprintable array raised {type(e).__name__}: {e}")
+                    if r is not args[1]:
+                        raise Violation("differs-from-plain", case, f"[{ck}, {how}] result is not the body's object")
+            finally:
+                jaxtyping.config.update("jaxtyping_disable", False)
+            if how == "config":
+                for thunk, what in ((lambda: Checked("not-an-int", np.zeros((3,))), "dataclass"), (lambda: fn(np.zeros((2, 2))), "function")):
+                    try:
+                        thunk()
+                        raise Violation("not-restored", case, f"[{ck}] after switching back on, the ill-typed {what} call was accepted")
+                    except TypeCheckError:
+                        pass
+            ctx.note(["dataclass-disabled", ck, how], True, classes=["dataclass-and-unprintable-values-while-disabled"], sample={"dataclass_while_disabled": [ck, how]})
+
+
+def obs_reset():
+    from vf import obs
+
+    obs.reset_state()
+
+
 def run(ctx):
+    try:
+        check_dataclass_and_unprintable(ctx)
+    except Violation as v:
+        ctx.record(v)
+
     @given(c19_case())
     def cases(case):
         check_case(ctx, case)
@@ -510,6 +587,8 @@ def replay(case, clause, ctx):
     try:
         if "env" in case:
             run_subprocesses(ctx)
+        elif "dataclass_disabled" in case:
+            check_dataclass_and_unprintable(ctx)
         else:
             check_case(ctx, case)
     except Violation as v:
